@@ -42,7 +42,7 @@ CLAIMED = {
  'C20': dict(text='Real single-letter and equation-punctuation scans on plain texts given as symbolic strings (any code point, <= 3 chars) and as symbolic choices of <= 4 atoms x accept lists x modes; reference isolated-letter / placeholder scanners independent of re; create_context with unbounded symbolic offset/length.',
    note='Trusted: CrossHair+z3 (every path validated natively), reference scanners (60 lines). Bound: text length <= 4 atoms.',
    technique='symbolic execution of the regex scans on symbolic strings / atom choices; native validation', ref='DESIGN.md 4/C20'),
- 'C05': dict(text='Two-hole sketches A . h1 . V . h2 . B for 22 vanishing constructs / chains: both layout holes are symbolic runs of blank / tab / line break (every layout up to 2 (thorough 3) characters each); per path z3 links the symbolic run to the native run; the gap between the words must be GLUED / SPACE / PARAGRAPH as a reference TeX line reader says.',
+ 'C05': dict(text='Two-hole sketches A . h1 . V . h2 . B for 33 vanishing constructs / chains (labels, comments, skipped regions, removed environments, calls of user macros with multi-line bodies, closing braces of pass-through arguments): both layout holes are symbolic runs of blank / tab / line break (every layout up to 2 (thorough 3) characters each); per path z3 links the symbolic run to the native run; the gap between the words must be GLUED / SPACE / PARAGRAPH as a reference TeX line reader says.',
    note=N_OFF, technique='symbolic execution of tex2txt with two symbolic layout holes (token splice with windows); z3 link queries; reference TeX reader', ref='DESIGN.md 4/C05'),
  'C06': dict(text='Whole filter on a fully symbolic string over every code point except \\ % # $ { } of length <= 3 (thorough 4), and on symbolic choices of <= 3 atoms among the special sequences and their prefixes; compared (text and positions) with a reference greedy longest-match tokenizer over the documented table.',
    note='Trusted: CrossHair+z3 (link to native run per path), reference tokenizer (15 lines). Bound: length <= 3 / <= 3 atoms.',
